@@ -34,12 +34,12 @@ LEVEL_TEXT = {
             "static_assert on the result type and value comparison initially and after every input change, plus nested expressions under deferred evaluation.", '6/C14'),
     'C02': ("Machine-checked in three layers. (1) Abstract propagation model (PropAbs.v: markDirty with early return, cached re-evaluation, equality "
             "suppression, nested notification): after every assignment every bound property equals the denotation of its expression, for every network of "
-            "unary/binary operator trees, every interpretation of the user functions and every delivery order. (2) Refinement (PropSim.v): on the executable "
-            "model that is run against the library (tables, handles, observers, logs) Property::setHelper IS the abstract assignment whenever the immediate "
-            "bindings are unary/binary trees and no observer acts; so a coherent world stays coherent under every assignment that returns normally, and in a "
+            "operator trees (arity 1-3), every interpretation of the user functions and every delivery order. (2) Refinement (PropSim.v): on the executable "
+            "model that is run against the library (tables, handles, observers, logs) Property::setHelper IS the abstract assignment whenever no observer acts "
+            "(operator trees of every arity the model has); so a coherent world stays coherent under every assignment that returns normally, and in a "
             "coherent world every immediately bound property equals its expression recomputed from scratch. (3) Growth (PropGrow.v): coherence is established "
             "and kept by every history that creates properties, attaches plain observers, binds fresh properties (immediate mode, expressions over existing "
-            "properties incl. bound ones, repeated inputs) and assigns to inputs. PARTIAL: ternary operators, observers that write, rebinding / reset / moves / "
+            "properties incl. bound ones, repeated inputs) and assigns to inputs. PARTIAL: observers that write, rebinding / reset / moves / "
             "destruction between assignments are covered by the extracted checker check_c02 on every reached world and by correspondence; known finding "
             "KF-C02-aborted-walk (an exception cutting a notification walk short) is re-confirmed on every run.", '6/C02'),
     'C03': ("Machine-checked on the executable model of Property::setHelper: an equal value changes nothing and logs nothing; any other value notifies every "
